@@ -459,7 +459,7 @@ func mutateBytes(r *hv.Rng, s string) string {
 }
 
 var tplChunks = []string{"a", "hello ", " ", "x y", "\u00e9", "\u65e5\u672c", "a\u0301", "\U0001F600", "\n", "\r\n", "\n\n", "\t", "$", "%", "$$", "%%", "$${", "%%{", "$${~", "$x", "%y",
-	"\"", "\\", "\\n", "}", "~}", "{", "#", "//", "/*", "<<EOT\n", "EOT\n", "1.5", "$\n", "%\r\n", "$x\n", "\U0001F468\u200d\U0001F469\u200d\U0001F467"}
+	"\"", "\\", "\\n", "}", "~}", "{", "#", "//", "/*", "<<EOT\n", "EOT\n", "1.5", "$\n", "%\r\n", "$x\n", "\r", "x\ry", "$\r", "\U0001F468\u200d\U0001F469\u200d\U0001F467"}
 
 func genTemplate(r *hv.Rng, depth int) string {
 	var sb strings.Builder
@@ -600,6 +600,19 @@ var c14Corpus = []struct {
 	{modeTemplate, "$%{x}"},
 	{modeTemplate, "a\r"},
 	{modeTemplate, "\r"},
+	// a lone CR at the top level of a bare template is a one-byte literal and scanning goes on
+	// (/repo 70c81c0; before, the rest of the template was one literal); below the top level
+	// (heredoc inside an interpolation) the rest is still one TokenInvalid
+	{modeTemplate, "a\r${x}"},
+	{modeTemplate, "\r$$${"},
+	{modeTemplate, "${x}\r${x}\r"},
+	{modeTemplate, "\r\r\n\r"},
+	{modeTemplate, "$\rX"},
+	{modeTemplate, "%\r%{if true}y%{endif}"},
+	{modeTemplate, "a\r\nb\rc\n$$${"},
+	{modeTemplate, "${\"\r\"}\r"},
+	{modeTemplate, "${<<E\n\rz\nE\n}\r${x}"},
+	{modeTemplate, "${ {\r"},
 	{modeTemplate, "\xef\xbb\xbfa${b}"},
 	{modeTemplate, "a\x00b\xc3"},
 	{modeTemplate, "${\"a\nb\"}"},
